@@ -1,6 +1,6 @@
 """C12 - reply timing: jitter, aggregation, one-second protection (queue side)."""
 from pyvc.contracts import Loop
-from contracts import records, loop_model
+from contracts import records, loop_model, cache_model
 
 PROP = 'C12'
 M = 'zeroconf._handlers.multicast_outgoing_queue'
@@ -10,8 +10,8 @@ ASSUMPTIONS = [
     'the `now` passed to async_add is the arrival time of the query and equals the clock (queries answered on arrival; '
     'reassembled TC trains pass the first packet\'s time and are covered only by the TC clause)',
     'record identity model (C20)',
-    'classification of answers (add_mcast_question_response) and the TC deferral in _listener are not under contract in '
-    'this build',
+    'QueryHandler.async_response (which strategies answer, C03; history, C13) is assumed to touch neither queues, timers, '
+    'send log nor clock; the TC deferral in _listener (400-500 ms hold, union of known answers) is not under contract in this build',
 ]
 AT = 'dict[DNSRecord, set[DNSRecord]]'
 
@@ -28,20 +28,37 @@ def build(R):
     R.spec('mq_ok', [('q', 'MulticastOutgoingQueue')], 'bool',
            'q._multicast_delay_random_min == 20 and q._multicast_delay_random_max == 120 and q._additional_delay >= 0 '
            'and q._aggregation_delay >= 120 and q.zc is not None and q.zc.loop is not None and '
-           'forall("j:int", lambda j: implies(0 <= j and j < len(q.queue), q.queue[j] is not None and allocated(q.queue[j]) and q.queue[j].send_after <= q.queue[j].send_before)) and '
+           'forall("j:int", lambda j: implies(0 <= j and j < len(q.queue), q.queue[j] is not None and cls_is(q.queue[j], AnswerGroup) and allocated(q.queue[j]) and q.queue[j].send_after <= q.queue[j].send_before)) and '
            'forall("j:int, m:int", lambda j, m: implies(0 <= j and j < m and m < len(q.queue), q.queue[j] is not q.queue[m] '
-           '   and q.queue[j].send_after < q.queue[m].send_after and q.queue[j].send_before <= q.queue[m].send_before))')
+           '   and q.queue[j].send_after < q.queue[m].send_after))')
+    # deadlines in arrival order (holds while queries are answered on arrival; a reassembled TC train carries the
+    # arrival time of its first packet and may break it - the statement excepts those)
+    R.spec('sb_mono', [('q', 'MulticastOutgoingQueue')], 'bool',
+           'forall("j:int, m:int", lambda j, m: implies(0 <= j and j < m and m < len(q.queue), q.queue[j].send_before <= q.queue[m].send_before))')
+    # a wake-up for this queue is pending that is due no later than the oldest group's deadline
+    R.spec('armed', [('q', 'MulticastOutgoingQueue')], 'bool',
+           'len(q.queue) == 0 or exists("p:int", lambda p: 0 <= p and p < len(TIMERS.events) and TIMERS.events[p][1] is q '
+           '   and TIMERS.events[p][2] == mid("async_ready") and CLOCK.now <= TIMERS.events[p][0] '
+           '   and TIMERS.events[p][0] <= q.queue[0].send_before)')
     T0 = 'old(len(TIMERS.events))'
     R.contract(M, 'MulticastOutgoingQueue.async_add', PROP, params={'now': 'real', 'answers': AT},
-               requires=['mq_ok(self)', 'now == CLOCK.now',
-                         # arrival times do not go backwards: the youngest queued group was queued at or before `now`
-                         'implies(len(self.queue) > 0, self.queue[len(self.queue) - 1].send_before <= now + self._aggregation_delay + self._additional_delay)'],
+               requires=['mq_ok(self)', 'now <= CLOCK.now'],
                modifies=['self.queue', 'TIMERS.events', 'TimerHandle.cancelled[*]', 'AnswerGroup.send_after[*]',
                          'AnswerGroup.send_before[*]', 'AnswerGroup.answers[*]'],
                ghost_out={'random_delay': 'int'},
                ensures=[
                    'mq_ok(self)',
                    '20 + self._additional_delay <= random_delay and random_delay <= 120 + self._additional_delay',
+                   # frame over groups: no existing group is re-timed; only the youngest group of THIS queue may gain answers
+                   'forall("g:AnswerGroup", lambda g: implies(old(allocated(g)), g.send_after == old(g.send_after) and g.send_before == old(g.send_before)))',
+                   'forall("g:AnswerGroup", lambda g: implies(old(allocated(g)) and not (old(len(self.queue)) > 0 and g is old(self.queue[len(self.queue) - 1])), '
+                   '   forall("i:ident", lambda i: g.answers.has(i) == old(g.answers.has(i)))))',
+                   'forall("j:int", lambda j: implies(0 <= j and j < len(self.queue) and j >= old(len(self.queue)), fresh_obj(self.queue[j])))',
+                   # answered on arrival (now is the clock): the pending wake-up still covers the oldest deadline
+                   'implies(now == CLOCK.now and old(armed(self)), armed(self))',
+                   # arrival times do not go backwards => deadlines stay ordered
+                   'implies(old(sb_mono(self)) and implies(old(len(self.queue)) > 0, '
+                   '   old(self.queue[len(self.queue) - 1].send_before) <= now + self._aggregation_delay + self._additional_delay), sb_mono(self))',
                    # (1) merged into the youngest group: nothing re-timed, its window already satisfies the new answers
                    'implies(old(len(self.queue)) > 0 and now + random_delay <= old(self.queue[len(self.queue) - 1].send_after), '
                    '   len(self.queue) == old(len(self.queue)) and len(TIMERS.events) == %s '
@@ -50,7 +67,9 @@ def build(R):
                    '   and forall("i:ident", lambda i: self.queue[len(self.queue) - 1].answers.has(i) == '
                    '        (old(self.queue[len(self.queue) - 1].answers.has(i)) or answers.has(i))) '
                    '   and now + 20 + self._additional_delay <= self.queue[len(self.queue) - 1].send_after '
-                   '   and self.queue[len(self.queue) - 1].send_before <= now + self._aggregation_delay + self._additional_delay)' % T0,
+                   # (deadline of the group merged into: no later than this query's own, when arrivals are in order)
+                   '   and implies(old(self.queue[len(self.queue) - 1].send_before) <= now + self._aggregation_delay + self._additional_delay, '
+                   '        self.queue[len(self.queue) - 1].send_before <= now + self._aggregation_delay + self._additional_delay))' % T0,
                    # (2) otherwise a new youngest group with the jittered window
                    'implies(not (old(len(self.queue)) > 0 and now + random_delay <= old(self.queue[len(self.queue) - 1].send_after)), '
                    '   len(self.queue) == old(len(self.queue)) + 1 '
@@ -60,7 +79,7 @@ def build(R):
                    '   and forall("j:int", lambda j: implies(0 <= j and j < old(len(self.queue)), self.queue[j] is old(self.queue[j]) '
                    '        and self.queue[j].send_after == old(self.queue[j].send_after) and self.queue[j].send_before == old(self.queue[j].send_before))))',
                    # (3) the wake-up: armed exactly when the queue was empty, for the group's send_after
-                   'implies(old(len(self.queue)) == 0, len(TIMERS.events) == %s + 1 and TIMERS.events[%s][0] == now + random_delay '
+                   'implies(old(len(self.queue)) == 0, len(TIMERS.events) == %s + 1 and TIMERS.events[%s][0] == CLOCK.now + random_delay '
                    '   and TIMERS.events[%s][1] is self and TIMERS.events[%s][2] == mid("async_ready"))' % (T0, T0, T0, T0),
                    'implies(old(len(self.queue)) > 0, len(TIMERS.events) == %s)' % T0,
                    'forall("p:int", lambda p: implies(0 <= p and p < %s, TIMERS.events[p] == old(TIMERS.events[p])))' % T0,
@@ -99,7 +118,7 @@ def build(R):
                          '   self.queue[j].answers.keyobj(i) is not None and ident(self.queue[j].answers.keyobj(i)) == i))'],
                modifies=['self.queue', 'TIMERS.events', 'TimerHandle.cancelled[*]', 'SENT.events', 'AnswerGroup.answers[*]'],
                ensures=[
-                   'mq_ok(self)',
+                   'mq_ok(self)', 'armed(self)', 'implies(old(sb_mono(self)), sb_mono(self))',
                    'forall("p:int", lambda p: implies(0 <= p and p < %s, TIMERS.events[p] == old(TIMERS.events[p])))' % T0,
                    'forall("p:int", lambda p: implies(0 <= p and p < %s, SENT.events[p] == old(SENT.events[p])))' % S0,
                    # (A) more than one group pending and the oldest may still wait: nothing is sent, wake up at its deadline
@@ -136,6 +155,8 @@ def build(R):
                    'forall("i:ident", lambda i: implies(answers.has(i), answers.keyobj(i) is not None and ident(answers.keyobj(i)) == i))',
                    'now == CLOCK.now and zc is self.zc and loop is self.zc.loop',
                ], modifies=['self.queue'], decreases='len(self.queue)')})
+    install_classify(R)
+    install_routing(R)
     # every answer of a group is sent inside [arrival + 20 + additional, arrival + aggregation + additional]:
     # a group is sent at an instant T with send_after <= T (async_ready pops only due groups) and, by the timer
     # invariant + ideal timers, T <= send_before
@@ -150,9 +171,127 @@ def build(R):
             ['T >= seen + 1000 and T <= arrival + 1200'])
 
 
+QH = 'zeroconf._handlers.query_handler'
+SR = 'set[DNSRecord]'
+
+
+def install_classify(R):
+    """which of the three multicast routes an answer takes (query_handler._QueryResponse)"""
+    cache_model.install(R)
+    R.shape('_QueryResponse', {'_is_probe': 'bool', '_questions': 'list[DNSQuestion]', '_now': 'real', '_cache': 'DNSCache',
+                               '_additionals': AT, '_ucast': SR, '_mcast_now': SR, '_mcast_aggregate': SR,
+                               '_mcast_aggregate_last_second': SR})
+    R.shape('QuestionAnswers', {'ucast': AT, 'mcast_now': AT, 'mcast_aggregate': AT, 'mcast_aggregate_last_second': AT})
+    # seen multicast less than a second before the query arrived: the cache holds the sighting and its time
+    R.spec('seen_1s', [('q', '_QueryResponse'), ('i', 'ident')], 'bool',
+           'in_cache(q._cache, i) and q._now - cached(q._cache, i).created < 1000')
+    R.spec('immediate', [('q', '_QueryResponse')], 'bool',
+           'len(q._questions) == 1 and (q._questions[0].type == 47 or q._questions[0].type == 33 '
+           '   or q._questions[0].type == 1 or q._questions[0].type == 28)')
+    R.spec('set_ok', [('s', SR)], 'bool',
+           'forall("i:ident", lambda i: implies(s.has(i), s.keyobj(i) is not None and ident(s.keyobj(i)) == i))')
+    R.spec('qr_ok', [('q', '_QueryResponse')], 'bool',
+           'q._cache is not None and wf_cache(q._cache) and set_ok(q._ucast) and set_ok(q._mcast_now) '
+           'and set_ok(q._mcast_aggregate) and set_ok(q._mcast_aggregate_last_second) and '
+           'forall("j:int", lambda j: implies(0 <= j and j < len(q._questions), q._questions[j] is not None)) and '
+           'forall("i:ident", lambda i: implies(q._ucast.has(i) or q._mcast_now.has(i) or q._mcast_aggregate.has(i) '
+           '   or q._mcast_aggregate_last_second.has(i), q._additionals.has(i)))')
+    R.contract(QH, '_QueryResponse._has_mcast_record_in_last_second', PROP, params={'record': 'DNSRecord'}, returns='bool',
+               requires=['qr_ok(self)', 'record is not None'],
+               ensures=['result == seen_1s(self, ident(record))'])
+    KEYS_OK = 'forall("i:ident", lambda i: implies(answers.has(i), answers.keyobj(i) is not None and ident(answers.keyobj(i)) == i))'
+    HIT = 'exists("m:int", lambda m: 0 <= m and m < _k and ident(_it[m]) == i)'
+
+    def routes(member):
+        return ['forall("i:ident", lambda i: self._mcast_now.has(i) == (old(self._mcast_now.has(i)) or '
+                '   (%s and (self._is_probe or (not seen_1s(self, i) and immediate(self))))))' % member,
+                'forall("i:ident", lambda i: self._mcast_aggregate_last_second.has(i) == (old(self._mcast_aggregate_last_second.has(i)) or '
+                '   (%s and not self._is_probe and seen_1s(self, i))))' % member,
+                'forall("i:ident", lambda i: self._mcast_aggregate.has(i) == (old(self._mcast_aggregate.has(i)) or '
+                '   (%s and not self._is_probe and not seen_1s(self, i) and not immediate(self))))' % member]
+    R.contract(QH, '_QueryResponse.add_mcast_question_response', PROP, params={'answers': AT},
+               requires=['qr_ok(self)', KEYS_OK],
+               modifies=['self._additionals', 'self._mcast_now', 'self._mcast_aggregate', 'self._mcast_aggregate_last_second'],
+               ensures=['qr_ok(self)',
+                        'forall("i:ident", lambda i: self._additionals.has(i) == (old(self._additionals.has(i)) or answers.has(i)))']
+               + routes('answers.has(i)'),
+               loops={0: Loop(inv=['qr_ok(self)',
+                                   'forall("i:ident", lambda i: self._additionals.has(i) == (old(self._additionals.has(i)) or answers.has(i)))']
+                              + routes(HIT),
+                              modifies=['self._mcast_now', 'self._mcast_aggregate', 'self._mcast_aggregate_last_second'])})
+    R.contract(QH, '_QueryResponse.answers', PROP, returns='QuestionAnswers', requires=['qr_ok(self)'],
+               ensures=['result is not None',
+                        'forall("i:ident", lambda i: result.ucast.has(i) == self._ucast.has(i))',
+                        'forall("i:ident", lambda i: result.mcast_now.has(i) == self._mcast_now.has(i))',
+                        'forall("i:ident", lambda i: result.mcast_aggregate.has(i) == self._mcast_aggregate.has(i))',
+                        'forall("i:ident", lambda i: result.mcast_aggregate_last_second.has(i) == self._mcast_aggregate_last_second.has(i))'])
+
+
+def install_routing(R):
+    """handle_assembled_query: each class of answers goes to its route, with the arrival time of the first packet"""
+    R.shape('QuestionHistory', {'_history': 'dict[DNSQuestion, tuple[real, set[DNSRecord]]]'})
+    R.shape('QueryHandler', {'zc': 'Zeroconf', 'out_queue': 'MulticastOutgoingQueue', 'out_delay_queue': 'MulticastOutgoingQueue'})
+    R.shape('DNSIncoming', {'now': 'real', '_questions': 'list[DNSQuestion]', 'id': 'int'})
+    R.contract(QH, 'QueryHandler.async_response', 'C03', params={'msgs': 'list[DNSIncoming]', 'ucast_source': 'bool'},
+               returns='opt[QuestionAnswers]', trusted=True, modifies=['QuestionHistory._history[*]'],
+               ensures=['implies(result is not None, fresh_obj(result))'],
+               note='builds the answer sets (C03 strategies, the classification proved above, question history C13); assumed '
+                    'here to write nothing but the question history and objects it creates (in particular not the queues, '
+                    'the timers, the send log or the clock)')
+    R.contract('zeroconf._handlers.answers', 'construct_outgoing_unicast_answers', 'C11',
+               params={'answers': AT, 'ucast_source': 'bool', 'questions': 'list[DNSQuestion]', 'id_': 'int'},
+               returns='DNSOutgoing', trusted=True,
+               ensures=['result is not None and fresh_obj(result) and not result.multicast',
+                        'forall("i:ident", lambda i: result.g_answers.has(i) == answers.has(i))'])
+    S0 = 'old(len(SENT.events))'
+    NU = '(ite(len(question_answers.ucast) > 0, 1, 0))'
+    R.contract(QH, 'QueryHandler.handle_assembled_query', PROP,
+               params={'packets': 'list[DNSIncoming]', 'addr': 'str', 'port': 'int', 'transport': 'object', 'v6_flow_scope': 'object'},
+               requires=['len(packets) > 0 and packets[0] is not None', 'self.zc is not None',
+                         'self.out_queue is not None and self.out_delay_queue is not None and self.out_queue is not self.out_delay_queue',
+                         'mq_ok(self.out_queue) and mq_ok(self.out_delay_queue)',
+                         'forall("j:int, m:int", lambda j, m: implies(0 <= j and j < len(self.out_queue.queue) and 0 <= m and m < len(self.out_delay_queue.queue), self.out_queue.queue[j] is not self.out_delay_queue.queue[m]))',
+                         'packets[0].now <= CLOCK.now', 'self.out_queue.zc is self.zc and self.out_delay_queue.zc is self.zc'],
+               modifies=['QuestionHistory._history[*]', 'MulticastOutgoingQueue.queue[*]', 'TIMERS.events', 'TimerHandle.cancelled[*]',
+                         'SENT.events', 'AnswerGroup.send_after[*]', 'AnswerGroup.send_before[*]', 'AnswerGroup.answers[*]'],
+               ghost_out={'question_answers': 'opt[QuestionAnswers]'},
+               at_calls={'self.async_response(packets, ucast_source)': ['ucast_source == (port != 5353)'],
+                         },
+               ensures=[
+                   'mq_ok(self.out_queue) and mq_ok(self.out_delay_queue)',
+                   'forall("j:int, m:int", lambda j, m: implies(0 <= j and j < len(self.out_queue.queue) and 0 <= m and m < len(self.out_delay_queue.queue), self.out_queue.queue[j] is not self.out_delay_queue.queue[m]))',
+                   'implies(question_answers is None, len(SENT.events) == %s and len(self.out_queue.queue) == old(len(self.out_queue.queue)) '
+                   '   and len(self.out_delay_queue.queue) == old(len(self.out_delay_queue.queue)))' % S0,
+                   # answered at once: exactly mcast_now, in this very step
+                   'implies(question_answers is not None and len(question_answers.mcast_now) > 0, len(SENT.events) == %s + %s + 1 '
+                   '   and SENT.events[%s + %s][0] == CLOCK.now and SENT.events[%s + %s][1].multicast '
+                   '   and forall("i:ident", lambda i: SENT.events[%s + %s][1].g_answers.has(i) == question_answers.mcast_now.has(i)))' % (S0, NU, S0, NU, S0, NU, S0, NU),
+                   'implies(question_answers is not None and len(question_answers.mcast_now) == 0, len(SENT.events) == %s + %s)' % (S0, NU),
+                   'implies(question_answers is not None and len(question_answers.ucast) > 0, not SENT.events[%s][1].multicast '
+                   '   and forall("i:ident", lambda i: SENT.events[%s][1].g_answers.has(i) == question_answers.ucast.has(i)))' % (S0, S0),
+                   # aggregated answers: youngest group of the 0/500 ms queue covers them, timed from the first packet
+                   'implies(question_answers is not None and len(question_answers.mcast_aggregate) > 0, len(self.out_queue.queue) > 0 '
+                   '   and forall("i:ident", lambda i: implies(question_answers.mcast_aggregate.has(i), self.out_queue.queue[len(self.out_queue.queue) - 1].answers.has(i))) '
+                   '   and packets[0].now + 20 + self.out_queue._additional_delay <= self.out_queue.queue[len(self.out_queue.queue) - 1].send_after)',
+                   'implies(question_answers is None or len(question_answers.mcast_aggregate) == 0, len(self.out_queue.queue) == old(len(self.out_queue.queue)) '
+                   '   and forall("j:int, i:ident", lambda j, i: implies(0 <= j and j < len(self.out_queue.queue), '
+                   '        self.out_queue.queue[j].answers.has(i) == old(self.out_queue.queue[j].answers.has(i)))))',
+                   # seen in the last second: only ever into the protected queue
+                   'implies(question_answers is not None and len(question_answers.mcast_aggregate_last_second) > 0, len(self.out_delay_queue.queue) > 0 '
+                   '   and forall("i:ident", lambda i: implies(question_answers.mcast_aggregate_last_second.has(i), '
+                   '        self.out_delay_queue.queue[len(self.out_delay_queue.queue) - 1].answers.has(i))) '
+                   '   and packets[0].now + 20 + self.out_delay_queue._additional_delay <= self.out_delay_queue.queue[len(self.out_delay_queue.queue) - 1].send_after)',
+                   'implies(question_answers is None or len(question_answers.mcast_aggregate_last_second) == 0, len(self.out_delay_queue.queue) == old(len(self.out_delay_queue.queue)) '
+                   '   and forall("j:int, i:ident", lambda j, i: implies(0 <= j and j < len(self.out_delay_queue.queue), '
+                   '        self.out_delay_queue.queue[j].answers.has(i) == old(self.out_delay_queue.queue[j].answers.has(i)))))',
+               ])
+
+
 def configure(ctx, R):
     records.configure(ctx)
     install_generators(R)
+    install_classify_generators(R)
+    install_routing_generators(R)
 
 
 NO_CONCRETE = set()
@@ -175,10 +314,11 @@ def install_generators(R):
         additional, aggr = g.rng.choice([(0, 500), (1000, 200)])
         q = MulticastOutgoingQueue(zc, additional, aggr)
         t = now - g.rng.choice([0, 100, 300, 600])
+        pool = [g.record() for _ in range(3)]
         for _ in range(g.rng.randint(0, 3)):
             t += g.rng.choice([1, 30, 90, 200])
             arrival = t
-            ans = {g.record(): set() for _ in range(g.rng.randint(0, 2))}
+            ans = {g.rng.choice(pool): set() for _ in range(g.rng.randint(0, 2))}
             q.queue.append(AnswerGroup(arrival + g.rng.randint(20, 120) + additional, arrival + aggr + additional, ans))
         # keep it strictly increasing in send_after
         last = None
@@ -232,3 +372,92 @@ def install_generators(R):
             env['CLOCK'].now = g.rng.choice([grp.send_after - 1, grp.send_after, grp.send_after + 1, grp.send_before, grp.send_before + 1])
         return {'self': q, '__env__': env, '__clock__': env['CLOCK'].now}
     R.generators[(M, 'MulticastOutgoingQueue.async_ready')] = g_ready
+
+
+def install_classify_generators(R):
+    def mk_qr(g):
+        import copy
+        from zeroconf._handlers.query_handler import _QueryResponse
+        cache = g.cache()
+        cached = [r for st in cache.cache.values() for r in st]
+        now = g.rng.choice([1500.0, 2000.0, 2999.0, 3000.0, 3001.0, 10000.0])
+        for r in cached:
+            r.created = now - g.rng.choice([0, 1, 999, 1000, 1001, 5000])
+        qs = [g.question() for _ in range(g.rng.choice([1, 1, 2, 0]))]
+        if qs and g.rng.random() < 0.5:
+            qs[0].type = g.rng.choice([1, 28, 33, 47, 12, 16, 255])
+        qr = _QueryResponse(cache, qs, g.rng.random() < 0.25, now)
+        pool = [copy.copy(r) for r in cached] + [g.record() for _ in range(2)]
+        answers = {r: set() for r in pool if g.rng.random() < 0.6}
+        return qr, answers, pool
+    R.generators[(QH, '_QueryResponse._has_mcast_record_in_last_second')] = \
+        lambda g: (lambda t: {'self': t[0], 'record': g.rng.choice(t[2])})(mk_qr(g))
+
+    def g_add(g):
+        qr, answers, pool = mk_qr(g)
+        if g.rng.random() < 0.4:
+            qr.add_mcast_question_response({r: set() for r in pool if g.rng.random() < 0.3})
+        return {'self': qr, 'answers': answers}
+    R.generators[(QH, '_QueryResponse.add_mcast_question_response')] = g_add
+
+    def g_answers(g):
+        qr, answers, pool = mk_qr(g)
+        qr.add_mcast_question_response(answers)
+        qr.add_ucast_question_response({r: set() for r in pool if g.rng.random() < 0.3})
+        return {'self': qr}
+    R.generators[(QH, '_QueryResponse.answers')] = g_answers
+
+
+def install_routing_generators(R):
+    from contracts.loop_model import concrete_world
+    from contracts.registry_model import mk_registry
+
+    def g_route(g):
+        from zeroconf._handlers.query_handler import QueryHandler
+        from zeroconf._handlers.multicast_outgoing_queue import MulticastOutgoingQueue
+        from zeroconf._history import QuestionHistory
+        from zeroconf._cache import DNSCache
+        from zeroconf._protocol.outgoing import DNSOutgoing
+        from zeroconf._protocol.incoming import DNSIncoming
+        from zeroconf._dns import DNSQuestion
+        from zeroconf import const
+        now = g.rng.choice([5000.0, 100000.0])
+        clock, timers, sent, loop = concrete_world(now)
+        seen = {}
+
+        class ZC:
+            def async_send(self, out, *a):
+                sent.events.append((clock.now, out))
+
+        class QH(QueryHandler):      # same methods; only remembers what async_response returned (ghost question_answers)
+            def async_response(self, msgs, ucast_source):
+                seen['qa'] = QueryHandler.async_response(self, msgs, ucast_source)
+                return seen['qa']
+        zc = ZC()
+        zc.loop = loop
+        zc.registry = mk_registry(g)
+        zc.cache = DNSCache()
+        zc.question_history = QuestionHistory()
+        zc.out_queue = MulticastOutgoingQueue(zc, 0, 500)
+        zc.out_delay_queue = MulticastOutgoingQueue(zc, 1000, 200)
+        qh = QH(zc)
+        infos = list(zc.registry._services.values())
+        # some of our own records were seen on the wire recently
+        for info in infos:
+            import copy
+            for rec in [copy.copy(r_) for r_ in [info.dns_pointer(), info.dns_service(), info.dns_text()] + info.dns_addresses()]:
+                if g.rng.random() < 0.4:
+                    rec.created = now - g.rng.choice([0, 500, 999, 1000, 1001, 30000])
+                    zc.cache.async_add_records([rec])
+        out = DNSOutgoing(const._FLAGS_QR_QUERY)
+        names = [i.type for i in infos] + [i.name for i in infos] + [i.server for i in infos if i.server] + ['_none._tcp.local.']
+        for _ in range(g.rng.choice([1, 1, 2])):
+            q = DNSQuestion(g.rng.choice(names), g.rng.choice([const._TYPE_PTR, const._TYPE_SRV, const._TYPE_A, const._TYPE_TXT, const._TYPE_ANY]), const._CLASS_IN)
+            q.unicast = g.rng.random() < 0.2
+            out.add_question(q)
+        pkt = DNSIncoming(out.packets()[0], ('1.2.3.4', 5353), None, now)
+        env = {'CLOCK': clock, 'TIMERS': timers, 'SENT': sent}
+        return {'self': qh, 'packets': [pkt], 'addr': '1.2.3.4', 'port': g.rng.choice([5353, 5353, 40000]), 'transport': object(),
+                'v6_flow_scope': (), '__env__': env, '__clock__': now,
+                '__ghost_out__': lambda kw, res: {'question_answers': seen.get('qa')}}
+    R.generators[(QH, 'QueryHandler.handle_assembled_query')] = g_route
